@@ -691,8 +691,11 @@ class AbstractExecutionTracer(ABC):  # noqa: PLR0904
             return
 
         self.disable()
-        yield
-        self.enable()
+        try:
+            yield
+        finally:
+            # Also when the block raises, e.g., an operator of the subject under test
+            self.enable()
 
     @contextlib.contextmanager
     def temporarily_enable(self) -> Generator[None, None, None]:
@@ -705,8 +708,10 @@ class AbstractExecutionTracer(ABC):  # noqa: PLR0904
             return
 
         self.enable()
-        yield
-        self.disable()
+        try:
+            yield
+        finally:
+            self.disable()
 
     @abstractmethod
     def stop(self) -> None:
